@@ -71,6 +71,63 @@ def branch_marginal(M, eps):
     return abs(xx + yy + zz) <= mar or abs(xx - max(yy, zz)) <= mar or abs(yy - zz) <= mar
 
 
+# every degeneracy guard / special-case branch of the three headers, with the buckets that must be exercised
+GUARDS = {
+    "frame(N): |e_x x N|^2 > |e_y x N|^2": ["true", "false", "marginal"],
+    "frame(N,up): |up.N| > 0.99f": ["below +", "below -", "above +", "above -", "marginal +", "marginal -", "up = +N exactly", "up = -N exactly"],
+    "slerp: d < 0": ["true", "false", "marginal"],
+    "slerp: |d| > 0.9995": ["below +", "below -", "above +", "above -", "marginal +", "marginal -", "d = +1 (b = a)", "d = -1 (b = -a)"],
+    "quat-from-matrix: vx.x+vy.y+vz.z >= 0": ["true", "false", "marginal"],
+    "quat-from-matrix: vx.x >= max(vy.y,vz.z)": ["true", "false", "marginal"],
+    "quat-from-matrix: vy.y >= vz.z": ["true", "false", "marginal"],
+    "orthogonal(): det < 0": ["true", "false"],
+    "clamp(LinearSpace3): entry vs [-1,1]": ["inside", "above 1", "below -1", "exactly 1", "exactly -1"],
+}
+GUARD_FLAVOURS = {"frame(N): |e_x x N|^2 > |e_y x N|^2": ("f", "fa"), "frame(N,up): |up.N| > 0.99f": ("f", "fa"), "slerp: d < 0": ("f", "d"),
+                  "slerp: |d| > 0.9995": ("f", "d"), "quat-from-matrix: vx.x+vy.y+vz.z >= 0": ("f", "d"),
+                  "quat-from-matrix: vx.x >= max(vy.y,vz.z)": ("f", "d"), "quat-from-matrix: vy.y >= vz.z": ("f", "d"),
+                  "orthogonal(): det < 0": ("f", "d"), "clamp(LinearSpace3): entry vs [-1,1]": ("f", "fa")}
+
+
+def guard_buckets(kind, a, iv, eps):
+    """which side of which guard this case sits on, judged on the (flavour-rounded) inputs with the rounding-aware margin"""
+    B = []
+    def tri(name, g, t, terms, sign=None):
+        mar = GUARD_C * eps * max(1.0, terms)
+        b = "marginal" if abs(g - t) <= mar else ("above" if g > t else "below")
+        B.append((name, b + (" " + sign if sign else "")))
+    def boolg(name, lhs, rhs, terms):          # lhs >= rhs / lhs > rhs
+        mar = GUARD_C * eps * max(1.0, terms)
+        B.append((name, "marginal" if abs(lhs - rhs) <= mar else ("true" if lhs > rhs else "false")))
+    if kind == "frm":
+        N, up = a[0:3], a[3:6]
+        boolg("frame(N): |e_x x N|^2 > |e_y x N|^2", N[1] * N[1] + N[2] * N[2], N[0] * N[0] + N[2] * N[2], 2.0)
+        d = dot(up, N)
+        tri("frame(N,up): |up.N| > 0.99f", abs(d), f32(0.99), 4.0, "+" if d >= 0 else "-")
+        if up == N: B.append(("frame(N,up): |up.N| > 0.99f", "up = +N exactly"))
+        if up == [-x for x in N]: B.append(("frame(N,up): |up.N| > 0.99f", "up = -N exactly"))
+    elif kind == "sl":
+        qa, qb = a[1:5], a[5:9]
+        d = dot(qa, qb); terms = sum(abs(x * y) for x, y in zip(qa, qb))
+        boolg("slerp: d < 0", 0.0, d, terms)
+        tri("slerp: |d| > 0.9995", abs(d), SLERP_THR, terms, "+" if d >= 0 else "-")
+        if qb == qa: B.append(("slerp: |d| > 0.9995", "d = +1 (b = a)"))
+        if qb == [-x for x in qa]: B.append(("slerp: |d| > 0.9995", "d = -1 (b = -a)"))
+    elif kind in ("qf", "rot"):
+        M = cols(a[0:9], 3) if kind == "qf" else cols(iv[0:9], 3)
+        xx, yy, zz = M[0][0], M[1][1], M[2][2]; t = abs(xx) + abs(yy) + abs(zz)
+        boolg("quat-from-matrix: vx.x+vy.y+vz.z >= 0", xx + yy + zz, 0.0, t)
+        if xx + yy + zz < 0:
+            boolg("quat-from-matrix: vx.x >= max(vy.y,vz.z)", xx, max(yy, zz), t)
+            if not xx >= max(yy, zz): boolg("quat-from-matrix: vy.y >= vz.z", yy, zz, t)
+    elif kind == "o2":
+        B.append(("orthogonal(): det < 0", "true" if det(cols(a[0:4], 2)) < 0 else "false"))
+    elif kind == "ol3":
+        for x in a[0:9]:
+            B.append(("clamp(LinearSpace3): entry vs [-1,1]", "exactly 1" if x == 1.0 else "exactly -1" if x == -1.0 else "above 1" if x > 1 else "below -1" if x < -1 else "inside"))
+    return B
+
+
 def branch_of(M):
     """which branch of QuaternionT(vx,vy,vz) the diagonal selects (the guards as written in Quaternion.h)"""
     xx, yy, zz = M[0][0], M[1][1], M[2][2]
@@ -271,16 +328,18 @@ def oracle(kind, args, out, eps):
         chk("rotate(p,u,r) keeps p", arp, p, 1.0 + norm(p))
         chk("rotate(p,u,r) linear part = rotate(u,r)", flat(Al), flat(M))
     elif kind == "frm":
+        # holds on either side of both guards (choice of the helper axis; fallback for up nearly (anti)parallel to N):
+        # orthonormal, third axis N, right-handed -- for EVERY pair, including up = +-N (a NaN anywhere is an error)
         N, up = args[0:3], args[3:6]
-        for nm, F in (("frame(N)", cols(out[0:9], 3)), ("frame(N,up)", cols(out[9:18], 3))):
-            chk(nm + " orthonormal", flat(mm(tr(F), F)), flat(ident(3)))
+        dn = dot(up, N) / max(1e-300, norm(up) * norm(N))
+        k2 = 1.0 if abs(dn) > 0.985 else 1.0 / max(1e-3, 1.0 - dn * dn)      # conditioning of normalize(up x N)
+        for nm, F, kk in (("frame(N)", cols(out[0:9], 3), 1.0), ("frame(N,up)", cols(out[9:18], 3), k2)):
+            chk(nm + " orthonormal", flat(mm(tr(F), F)), flat(ident(3)), kk)
             chk(nm + " third axis = N", F[2], N)
-            chk(nm + " right-handed", [det(F)], [1.0])
+            chk(nm + " right-handed", [det(F)], [1.0], kk)
         F2 = cols(out[9:18], 3)
-        if abs(dot(up, N)) <= 0.98:
-            chk("frame(N,up): dx || up x N", F2[0], unit(cross(up, N)))
-        # guards (the identities above hold on either side; a marginal case only exempts the model comparison, whose
-        # two sides may pick different but equally valid helper directions)
+        if abs(dn) <= 0.98 and norm(cross(up, N)) > 0:
+            chk("frame(N,up): dx || up x N", F2[0], unit(cross(up, N)), k2)
         mar = GUARD_C * eps * 4.0
         dx0, dx1 = cross([1, 0, 0], N), cross([0, 1, 0], N)
         if abs(dot(dx0, dx0) - dot(dx1, dx1)) <= mar or abs(abs(dot(up, N)) - f32(0.99)) <= mar:
@@ -410,6 +469,67 @@ def gen_unit_quat(r, dominant=None):
         if n > 0.3: return [x / n for x in q]
 
 
+def guard_cases(r):
+    """inputs ON and just either side of every degeneracy guard / special-case branch, in both signs"""
+    C = []
+    def perp(n):
+        while True:
+            t = cross(n, [r.gauss(0, 1) for _ in range(3)])
+            if norm(t) > 0.2: return unit(t)
+    def perp4(q):
+        while True:
+            t = [r.gauss(0, 1) for _ in range(4)]
+            d = dot(t, q); t = [x - d * y for x, y in zip(t, q)]
+            if math.sqrt(dot(t, t)) > 0.2:
+                n = math.sqrt(dot(t, t)); return [x / n for x in t]
+    deltas = [0.0, 1e-9, -1e-9, 1e-7, -1e-7, 3e-6, -3e-6, 1e-3, -1e-3, 3e-2, -3e-2]
+    # frame(N): helper axis chosen by |N.y| > |N.x|; frame(N,up): fallback when |up.N| > 0.99f
+    Ns = [[1.0, 0, 0], [-1.0, 0, 0], [0, 1.0, 0], [0, -1.0, 0], [0, 0, 1.0], [0, 0, -1.0]]
+    for dl in deltas:
+        for sx in (1, -1):
+            for sy in (1, -1):
+                z = r.uniform(-0.7, 0.7); h = math.sqrt((1 - z * z) / 2)
+                Ns.append(unit([sx * h, sy * h * (1 + dl), z]))
+    for _ in range(6): Ns.append(unit([r.gauss(0, 1) for _ in range(3)]))
+    c0 = f32(0.99)
+    for N in Ns:
+        ups = [list(N), [-x for x in N]]
+        for sg in (1, -1):
+            for dl in deltas:
+                c = sg * min(1.0, c0 + dl); t = perp(N)
+                ups.append([c * x + math.sqrt(max(0.0, 1 - c * c)) * y for x, y in zip(N, t)])
+            for nz in (1e-9, 1e-5, 1e-3):        # almost exactly (anti)parallel
+                ups.append(unit([sg * x + nz * y for x, y in zip(N, perp(N))]))
+        for up in r.sample(ups, 10) + ups[0:2]:
+            C.append(("frm", list(N) + list(up), False))
+    # slerp: d < 0 flip and |d| > 0.9995 fallback; b = +-a exactly
+    for _ in range(8):
+        a = gen_unit_quat(r)
+        targets = [0.0 + dl for dl in deltas] + [sg * (SLERP_THR + dl) for sg in (1, -1) for dl in deltas if SLERP_THR + dl <= 1]
+        for d in targets:
+            t4 = perp4(a)
+            b = [d * x + math.sqrt(max(0.0, 1 - d * d)) * y for x, y in zip(a, t4)]
+            C.append(("sl", [grid(r, 0, 1, 256)] + a + b, False))
+        for tt in (0.0, 0.25, 1.0):
+            C.append(("sl", [tt] + a + list(a), False)); C.append(("sl", [tt] + a + [-x for x in a], False))
+    # quaternion-from-matrix: trace = 4r^2-1 around 0 (both signs of r); vx.x vs max(vy.y,vz.z) <=> i^2 vs j^2,k^2; vy.y vs vz.z <=> j^2 vs k^2
+    for dl in deltas:
+        for sg in (1, -1):
+            rr = sg * math.sqrt(0.25 + dl / 4); rest = unit([r.gauss(0, 1) for _ in range(3)]); sc = math.sqrt(1 - rr * rr)
+            C.append(("qf", flat(qmat([rr] + [sc * x for x in rest])), False))
+            # trace < 0 (r small); two of i,j,k with nearly equal squares
+            r0 = r.uniform(-0.3, 0.3); m = math.sqrt((1 - r0 * r0) / 2.5)
+            for (pi, pj, pk) in ((1.0, 1.0 + dl, 0.5), (1.0, 0.5, 1.0 + dl), (0.5, 1.0, 1.0 + dl)):
+                q = [r0, sg * pi * m, pj * m, -sg * pk * m]; n = math.sqrt(dot(q, q))
+                C.append(("qf", flat(qmat([x / n for x in q])), False))
+    # clamp: entries on, inside and outside [-1, 1]
+    for _ in range(6):
+        A = [1.0, -1.0, 1.0 + 2.0 ** -20, -1.0 - 2.0 ** -20, 1.0 - 2.0 ** -20, -1.0 + 2.0 ** -20, 0.5, -3.0, 2.5]
+        r.shuffle(A)
+        C.append(("ol3", A + gen_real_matrix(r, 3), False))
+    return C
+
+
 def make_cases(ctx):
     r = ctx.rng("cases")
     cases = []      # (kind, [floats], integer?)
@@ -474,6 +594,7 @@ def make_cases(ctx):
             b = unit([x * r.choice([1, -1]) + 0.01 * r.gauss(0, 1) for x in a]); s = r.choice([1, -1]); b = [s * x for x in b]
         t = r.choice([0.0, 1.0, 0.5, 0.25]) if i % 7 == 0 else grid(r, 0, 1, 256)
         cases.append(("sl", [t] + a + b, False))
+    cases += guard_cases(r)
     for _ in range(ctx.pick(100, 1000)):
         N = unit([r.gauss(0, 1) for _ in range(3)])
         up = unit([r.gauss(0, 1) for _ in range(3)])
@@ -633,6 +754,7 @@ def run(ctx):
     stats = {"compared_outputs": 0, "bit_exact_vs_machine_reading": 0, "model_mismatch": 0, "oracle_checks": 0, "oracle_fail": 0, "guard_marginal_cases": 0, "model_mismatch_on_guard_marginal_case": 0}
     branch_cov = {fl: {1: 0, 2: 0, 3: 0, 4: 0} for fl in ("f", "fa", "d")}
     kinds_hist, worst_ratio = {}, {}
+    guard_cov = {}
     viol_seen = set()
     for fl in ("f", "fa", "d"):
         eps = EPS[fl]
@@ -651,6 +773,8 @@ def run(ctx):
             if kind == "qf": branch_cov[fl][branch_of(cols(ain[0:9], 3))] += 1
             # 1. independent oracle on the implementation's own outputs
             bad = []
+            for (gname, bucket) in guard_buckets(kind, ain, iv, eps):
+                guard_cov.setdefault(gname, {}).setdefault(fl, {}); guard_cov[gname][fl][bucket] = guard_cov[gname][fl].get(bucket, 0) + 1
             orc = oracle(kind, ain, iv, eps)
             marginal = oracle.marginal
             if kind == "rot" and branch_marginal(cols(iv[0:9], 3), eps): marginal = True
@@ -702,6 +826,15 @@ def run(ctx):
         for b, n in branch_cov[fl].items():
             if n == 0:
                 ctx.broken.append("branch %d of the quaternion-from-matrix constructor was not exercised (%s)" % (b, fl))
+    ctx.cov["guards_exercised"] = guard_cov
+    for gname, need in GUARDS.items():
+        for fl in GUARD_FLAVOURS[gname]:
+            have = guard_cov.get(gname, {}).get(fl, {})
+            for b in need:
+                if b == "marginal" or b.startswith("marginal"):
+                    pass                      # reported, and required below only where the construction can hit it
+                if have.get(b, 0) == 0 and not (b.startswith("marginal") and fl == "d" and gname.startswith("quat-from-matrix: v")):
+                    ctx.broken.append("guard not exercised: %s -- bucket '%s' (%s)" % (gname, b, fl))
     ctx.cov["cases_by_flavour_and_kind"] = kinds_hist
     ctx.cov["comparison"] = stats
     ctx.cov["worst_error_over_tolerance_per_identity"] = {k: round(v, 4) for k, v in sorted(worst_ratio.items())}
@@ -718,6 +851,7 @@ def run(ctx):
     ctx.assumptions += ["the generated model is the RKCOMMON_NO_SIMD configuration: rcp(float)/rsqrt(float) are 1/x and 1/sqrt(x); the SSE estimate + one Newton step of the default build is covered only numerically (within tolerance)",
                         "theorems are exact real algebra (IR); the floating-point tolerance versus condition number is decided numerically, not proved",
                         "LinearSpace2::orthogonal() contains a loop: hand model coq/C06/Ortho.v (control flow mirrored by hand, every callee regenerated); proved: fixed point orthogonal, det sign kept, polar form Q*S kept with the same Q, mirror wrapper; convergence of the iteration (that it stops near the fixed point) is checked numerically only",
+                        "functions without a degeneracy guard (lookat with up parallel to the view direction, rotate / normalize of a zero-length axis) are exercised on non-degenerate inputs only: the code returns NaN there by construction and the property speaks of well-conditioned inputs",
                         "a default-constructed object is modelled with 0 in its (indeterminate) fields; the translated code assigns every field before reading it"]
     if ctx.thorough():
         ctx.coq_thorough_chk(["C06." + f[:-2] for f in PROP_FILES])
